@@ -112,7 +112,12 @@ class C09(PropBase):
                 "operations are rebuilt from the operands a second translator reads off the crate source and proved equal to the model's "
                 "(c09_memory_ops_are_source). Compared with the code: the harness reader looks at every space() slice before writing; "
                 "the stale bytes it sees (first/last 32 of each slice) are predicted by the extracted byte-level run on every case "
-                "that is cheap enough (c09_bytes_trace_is_run, c09_bytes_run_is_drive).",
+                "that is cheap enough (c09_bytes_trace_is_run, c09_bytes_run_is_drive). The recovery amount and parse_more's consumed, "
+                "computed on the real bytes of data(), equal what the index model consumes (c09_amounts_from_bytes; the trimming rule is "
+                "read off parse_more's source, c09_trim_is_source); on Ok the callback has received the whole input byte for byte "
+                "(c09_ok_callback_is_whole_input). Oracle additions: a byte >= 0x80 in any numeric field must be rejected without a panic "
+                "(tag bad); sub-records anywhere relative to their group's address range must parse (tag ok); a record on a line of at "
+                "most 80 KiB is never dropped (FILE count of the table, tag keep<N>).",
         "note": "Trusted: Coq kernel; hand-written models of mod.rs, parser.rs and of circular 0.3.0 (indices and, since round 5, memory: "
                 "ptr::copy read as memmove, Vec::resize as append of the fill value) - correspondence-checked (events, space() contents, "
                 "callback bytes), pinned by two translators + proofs, not verified against rustc semantics. No axioms.",
